@@ -13,8 +13,10 @@ def _lazy(mod, fn):
 PROPS = {}
 
 def reg(pid, mod, fn, level, rule, explanation, assumptions):
-    if pid in ("C12", "C13", "C14", "C15", "C16", "C17", "C18", "C19"):
+    if pid in ("C01", "C12", "C13", "C14", "C15", "C16", "C17", "C18", "C19"):
         explanation = explanation + RO_TEXT
+    if pid in ("C14", "C15", "C17", "C18"):
+        explanation = explanation + RF_TEXT
     if pid not in ("C01", "C09", "C11", "C13", "C14", "C15", "C16", "C17", "C18"):
         explanation = explanation + RD_TEXT
     if pid != "C11":
@@ -22,6 +24,7 @@ def reg(pid, mod, fn, level, rule, explanation, assumptions):
     PROPS[pid] = (_lazy(mod, fn), level, rule, explanation, assumptions)
 
 RO_TEXT = " RO (S, dependency): the operators this family is composed of (+, -, *, / in every operand pairing) conform to the algorithms C03 / C04 / C05 establish - their form rules are run as an obligation of this property."
+RF_TEXT = " RF (S, dependency): the functions of other families this family is built on (exp / exp2 / exp_m1 under the logarithms, ln and exp under powf, exp / ln / sqrt under the hyperbolics, sqrt under asin) conform to their own reference forms - those families' rules are run as an obligation of this property."
 RD_TEXT = " RD (N): the form rules read a body as if its assertions hold, its expect / unwrap calls succeed and its overflow / bounds checks pass; every such panic site in the bodies they evaluated is discharged by the panic-site analysis (interval facts under the path conditions), entered from the public functions among those bodies."
 RB_TEXT = " RB (X): every body these rules evaluated is identical in the no_std build (fma provider aside; where the rules rely on products, that provider is libm::fma(x,y,z) behind the single wrapper), so the verdict carries over to that configuration."
 
